@@ -228,7 +228,9 @@ def main():
     if a.replay:
         return do_replay(P, prop, a.replay)
     tier = a.tier
-    import irparse
+    import irparse, glob
+    for f in glob.glob(os.path.join(VERIF, 'evidence', 'replays', prop + '_*')):
+        os.remove(f)
     units = [u for u in P.UNITS if (not a.unit or u['name'] == a.unit) and tier in u.get('tiers', ('quick', 'thorough'))]
     known = load_known()
     # 1. lower every unit from /repo's current tree
